@@ -92,7 +92,11 @@ type Machine struct {
 	lemmas   map[string]bool
 	ufApps   []*Term
 	ufSeen   map[*Term]bool
+	ufSeeded int
 	ufScanned map[*Term]bool
+	known    map[*Term]bool
+	bounds   map[*Term]rng
+	rmemo    map[*Term]rng
 	frozen   map[*value]bool
 	frozenM  map[*Map]bool
 	freezeOn bool
@@ -119,6 +123,7 @@ type Machine struct {
 	Stats      Stats
 	FuncsHit   map[string]int
 	Intrinsics map[string]int
+	SiteStats  map[string]int
 }
 
 type vxEntry struct {
@@ -137,6 +142,7 @@ type Stats struct {
 	Asserts     int // assertion obligations discharged (unsat)
 	AssertsFail int
 	CegarIters  int
+	KnownHits   int
 	Reasons     map[string]int
 }
 
@@ -148,6 +154,9 @@ func NewMachine(prog *ssa.Program, solverKind string, timeoutMS int) (*Machine, 
 	m.PanicIsBug = true
 	m.FuncsHit = map[string]int{}
 	m.Intrinsics = map[string]int{}
+	if os.Getenv("GOSX_SITES") != "" {
+		m.SiteStats = map[string]int{}
+	}
 	m.Stats.Reasons = map[string]int{}
 	m.registerUnicode()
 	sol, err := NewSolver(solverKind, m.st, timeoutMS)
@@ -368,6 +377,9 @@ func (m *Machine) setModel(md Model) {
 }
 
 func (m *Machine) flushPC() {
+	if m.pcSent < len(m.pc) {
+		m.sol.AfterFlush = true
+	}
 	for ; m.pcSent < len(m.pc); m.pcSent++ {
 		m.sol.Assert(m.pc[m.pcSent])
 	}
@@ -379,6 +391,29 @@ func (m *Machine) addPC(t *Term) {
 	}
 	m.pc = append(m.pc, t)
 	m.scanUF(t)
+	m.learn(t, true)
+}
+
+// learn records conditions whose truth value follows syntactically from the path condition.
+func (m *Machine) learn(t *Term, val bool) {
+	if t.Op == OpConst {
+		return
+	}
+	if _, ok := m.known[t]; ok {
+		return
+	}
+	m.known[t] = val
+	m.learnBounds(t, val)
+	switch {
+	case t.Op == OpNot:
+		m.learn(t.Args[0], !val)
+	case t.Op == OpAnd && val:
+		m.learn(t.Args[0], true)
+		m.learn(t.Args[1], true)
+	case t.Op == OpOr && !val:
+		m.learn(t.Args[0], false)
+		m.learn(t.Args[1], false)
+	}
 }
 
 // scanUF collects UF applications occurring in t.
@@ -406,16 +441,36 @@ func (m *Machine) scanUF(t *Term) {
 func (m *Machine) solve(extra *Term) (Result, Model) {
 	m.flushPC()
 	m.scanUF(extra)
+	// seed: pin every new application at the current model's argument value and at RuneError
+	if len(m.ufApps) > m.ufSeeded {
+		for _, app := range m.ufApps[m.ufSeeded:] {
+			if d := m.st.UF[app.Name]; d.Coarse != nil {
+				m.sol.AssertRaw(d.Coarse(m.sol.Name(app.Args[0]), m.sol.Name(app)))
+			}
+		}
+		m.refineAt(m.model, m.memo)
+		m.refineAt(nil, nil)
+		m.ufSeeded = len(m.ufApps)
+	}
 	for iter := 0; iter < 400; iter++ {
-		m.sol.Push()
-		m.sol.Assert(extra)
-		res := m.sol.Check()
+		var res Result
+		if m.sol.Kind == "cvc5" {
+			m.sol.Push()
+			m.sol.Assert(extra)
+			res = m.sol.Check()
+		} else {
+			res = m.sol.CheckAssuming(extra)
+		}
 		if res != Sat {
-			m.sol.Pop()
+			if m.sol.Kind == "cvc5" {
+				m.sol.Pop()
+			}
 			return res, nil
 		}
 		md, err := m.sol.Values(m.st.Vars)
-		m.sol.Pop()
+		if m.sol.Kind == "cvc5" {
+			m.sol.Pop()
+		}
 		if err != nil {
 			m.note("get-value failed: " + err.Error())
 			return Unknown, nil
@@ -431,23 +486,7 @@ func (m *Machine) solve(extra *Term) (Result, Model) {
 			}
 		}
 		// refine every lazily interpreted application at the model's argument value
-		added := 0
-		for _, app := range m.ufApps {
-			d := m.st.UF[app.Name]
-			arg := app.Args[0]
-			av := m.st.EvalMemo(arg, md, memo)
-			lo, hi, par, base, mulx := d.Lemma(av)
-			key := fmt.Sprintf("%s|%d|%d", app.Name, arg.id, lo)
-			if arg.Op == OpConst {
-				key = fmt.Sprintf("%s|c%d|%d", app.Name, arg.C, lo)
-			}
-			if m.lemmas[key] {
-				continue
-			}
-			m.lemmas[key] = true
-			m.sol.AssertRaw(m.lemmaText(app, lo, hi, par, base, mulx))
-			added++
-		}
+		added := m.refineAt(md, memo)
 		if ok {
 			return Sat, md
 		}
@@ -467,6 +506,45 @@ func (m *Machine) solve(extra *Term) (Result, Model) {
 	}
 	m.note("refinement limit reached")
 	return Unknown, nil
+}
+
+// refineAt adds, for every lazily interpreted application, the lemma covering the
+// argument value under md (md == nil: the value U+FFFD).  It returns the number of new lemmas.
+func (m *Machine) refineAt(md Model, memo map[*Term]uint64) int {
+	added := 0
+	for _, app := range m.ufApps {
+		d := m.st.UF[app.Name]
+		arg := app.Args[0]
+		var av uint64 = 0xFFFD
+		if md != nil {
+			av = m.st.EvalMemo(arg, md, memo)
+		}
+		if av <= 0xFF && d.EagerLo != "" {
+			continue
+		}
+		lo, hi, par, base, mulx := d.Lemma(av)
+		if lo <= 0xFF && d.EagerLo != "" {
+			nl := uint64(0x100)
+			if par >= 0 && (nl-lo)%2 == 1 {
+				nl++
+			}
+			lo = nl
+		}
+		key := fmt.Sprintf("%s|%d|%d", app.Name, arg.id, lo)
+		if arg.Op == OpConst {
+			key = fmt.Sprintf("%s|c%d|%d", app.Name, arg.C, lo)
+		}
+		if m.lemmas[key] {
+			continue
+		}
+		m.lemmas[key] = true
+		m.sol.AssertRaw(m.lemmaText(app, lo, hi, par, base, mulx))
+		added++
+		if os.Getenv("GOSX_LEMMAS") != "" {
+			fmt.Fprintf(os.Stderr, "LEMMA %s arg=%d av=%x [%x,%x] par=%d seed=%v\n", app.Name, arg.id, av, lo, hi, par, md == nil || &md == &m.model)
+		}
+	}
+	return added
 }
 
 func (m *Machine) lemmaText(app *Term, lo, hi uint64, par int, base, mulx uint64) string {
@@ -517,6 +595,10 @@ func (m *Machine) branch(cond *Term) bool {
 	if cond.Op == OpConst {
 		return cond.C != 0
 	}
+	if v, ok := m.implied(cond, 0); ok {
+		m.Stats.KnownHits++
+		return v
+	}
 	k := len(m.decs)
 	var dir bool
 	if k < len(m.prefix) {
@@ -531,6 +613,9 @@ func (m *Machine) branch(cond *Term) bool {
 			other = m.st.Not(cond)
 		}
 		res, md := m.solve(other)
+		if m.SiteStats != nil {
+			m.SiteStats[m.site()+" "+res.String()]++
+		}
 		switch res {
 		case Sat:
 			pre := make([]Dec, k+1)
@@ -683,7 +768,11 @@ func (m *Machine) RunPath(entry *ssa.Function, it Item) (kind, reason string) {
 	m.lemmas = map[string]bool{}
 	m.ufApps = m.ufApps[:0]
 	m.ufSeen = map[*Term]bool{}
+	m.ufSeeded = 0
 	m.ufScanned = map[*Term]bool{}
+	m.known = map[*Term]bool{}
+	m.bounds = map[*Term]rng{}
+	m.rmemo = map[*Term]rng{}
 	m.frozen = nil
 	m.frozenM = nil
 	m.freezeOn = false
